@@ -22,7 +22,17 @@ thread_local! {
 /// would also be true in every other task that runs while a crashed task's drop handlers are
 /// blocked on a lock.
 pub fn panicking() -> bool {
-    CRASHING.with(|c| c.borrow().contains(&crate::me_usize())) || contained_unwind::panicking()
+    // May be called from drop handlers that run outside any execution (tear-down of an aborted
+    // execution): never touch the execution state unless a crash is actually in flight, and
+    // never panic here.
+    // (`try_with`: this also runs from thread-local destructors at OS-thread exit)
+    let crashing_here = CRASHING
+        .try_with(|c| match c.try_borrow() {
+            Ok(set) if !set.is_empty() => crate::try_me_usize().map(|me| set.contains(&me)).unwrap_or(false),
+            _ => false,
+        })
+        .unwrap_or(false);
+    crashing_here || contained_unwind::panicking()
 }
 
 /// Fault `task_panic`: the calling simulated thread crashes here - it unwinds like a panicking
